@@ -680,17 +680,17 @@ def compare_batched(impl, model):
 
 
 def compare_fnless(impl, model):
-  """Chains of un-batched operators WITHOUT functions: the direct specification `Ref.fnlessChain` (Model/PipeFnless.lean:
-  the value read under input key i is stored as it is under output key i; no call, no tuple packing) against the Lean
-  model of the code (instances of C08_fnless_chain: must agree whenever SelfAlone + CleanRun hold) and against the
-  independent Python reference (`ref_route_values`)."""
+  """Chains of un-batched operators WITHOUT functions: the direct specification `Ref.fnlessChainS` (Model/PipeFnless.lean:
+  the value read under input key i is stored as it is under output key i; no call, no tuple packing; any source) against
+  the Lean model of the code (instances of C08_fnless_chain_any_source: must agree whenever SelfAlone holds) and against
+  the independent Python reference (`ref_route_values`)."""
   ok = bool(model['fnless_ok'])
-  _stat('fnless_theorem', 'side-conditions hold' if ok else 'outside (SELF first of several keys, passed-on error)')
+  _stat('fnless_theorem', 'side-conditions hold' if ok else 'outside (SELF first of several keys)')
   if not ok:
     return None
   if model.get('out') != model['fnless_out'] or model.get('err') != model['fnless_err']:
-    return (f"the direct specification Ref.fnlessChain differs from the Lean model of the code although the side conditions of "
-            f"C08_fnless_chain hold: {jdump(model['fnless_out'])[:200]} / {jdump(model.get('out'))[:200]}")
+    return (f"the direct specification Ref.fnlessChainS differs from the Lean model of the code although the side condition of "
+            f"C08_fnless_chain_any_source holds: {jdump(model['fnless_out'])[:200]} / {jdump(model.get('out'))[:200]}")
   ref = impl.get('pyref') or {}
   if ref.get('exact') and 'crash' not in ref and ref.get('out') is not None:
     _stat('fnless_theorem_pyref', 'compared')
